@@ -31,15 +31,15 @@ type SEv struct {
 }
 
 type SrvGenCfg struct {
-	Srv       SrvCfg
-	Pools     *Pools
-	Steps     int
-	MaxSess   int
-	WViol     int // per-mille of deliberate protocol violations
-	WStamp    int // per-mille of wrongly stamped operations
-	WMalform  int // per-mille malformed operations
-	WFlush    int
-	WGet      int
+	Srv      SrvCfg
+	Pools    *Pools
+	Steps    int
+	MaxSess  int
+	WViol    int // per-mille of deliberate protocol violations
+	WStamp   int // per-mille of wrongly stamped operations
+	WMalform int // per-mille malformed operations
+	WFlush   int
+	WGet     int
 	// WReadd: per-mille chance that an ADD is followed at once by an ADD of the same key with a stripped payload
 	WReadd int
 	// WAddNI: per-mille chance (per step) that a network instance is added to the running server
@@ -47,7 +47,7 @@ type SrvGenCfg struct {
 	// GetAfterOps: per-mille chance of a complete Get right after an operations message (and one at the end)
 	GetAfterOps int
 	// BadNI: Flush / Get requests name the empty or an unknown network instance more often
-	BadNI bool
+	BadNI     bool
 	WClose    int
 	WElec     int // per-mille extra election announcements by elected sessions
 	BatchMax  int
